@@ -178,6 +178,13 @@ func factorisations(n int, maxRank int) [][]int {
 }
 
 func genC13(tier string, r *rng, emit func(string)) {
+	// a Reshape that is refused (non-contiguous view) must not have moved anything first, also
+	// when the view carries a pending lazy transpose
+	for _, c := range []string{"new:rm:3,4:0;slice:0:_/1.3.1;T:1:1,0;reshape:1:6", "new:rm:3,4:0;slice:0:_/0.2.1;T:1:1,0;reshape:1:2,3",
+		"new:rm:3,4:0;slice:0:_/1.3.1;reshape:1:6", "new:rm:2,3,4:0;slice:0:_/_/1.3.1;T:1:2,0,1;reshape:1:12", "new:rm:4,4:0;slice:0:0.4.2/_;T:1:1,0;reshape:1:8"} {
+		emit("prog f64 " + c)
+		emit("prog i " + c + ";at:0:1,1")
+	}
 	// found by the proof of history_refines (RefineProofs.v), not by the generators: Reshape of a
 	// slice along the leading axis of a lazily transposed tensor (its contiguity flag is unsound: F5)
 	for _, p := range []string{"new:rm:2,3:1;T:0:_;slice:0:0.2.1;reshape:1:4", "new:rm:3,3:1;T:0:1,0;slice:0:0.2.1;reshape:1:6",
